@@ -2,6 +2,7 @@ package checks
 
 import (
 	"verif/harness/internal/core"
+	"verif/harness/internal/ref"
 )
 
 // C09 — delivered messages are stable.
@@ -98,6 +99,30 @@ func c09Hook(c *core.Collector, x *Ctx) {
 		sc := &hookScenario{Kind: "hook", Gen: "transfer with timer paths (re-request, expiry)", Frames: hexAll(frames), Ops: ops}
 		hookEval(c, sc, cats, true)
 		delivered.Add(1)
+	})
+	// frames of the tolerated dialect (check code 0x7D sent raw) followed by escaped frames: the decoder's special exit for them
+	nd := c.N(400, 8000)
+	core.ParallelFor(nd, ncpu(), func(i int) {
+		r := core.NewRand(c.Seed, "c09raw7d", uint64(i))
+		var fs [][]byte
+		for q := 0; q < 2+r.Intn(5); q++ {
+			v := r.Bool()
+			body := c04Body(r, r.Intn(4), 1+r.Intn(40))
+			f := hookFrameV(v, core.Pick(r, []uint16{0x0200, 0x0002, 0x0102}), uint16(q+1), false, 0, 0, body)
+			if q%2 == 0 {
+				// rebuild with the check code steered to 0x7D and left unescaped
+				rf, _ := ref.Validate(f)
+				pp := ref.Payload(ref.Params{ID: rf.ID, V2019: rf.V2019, VersionByt: 1, BCD: rf.BCD, Serial: rf.Serial, Body: rf.Body})
+				pp[len(pp)-2] ^= pp[len(pp)-1] ^ 0x7d
+				pp = c02Fix(pp)
+				if pp[len(pp)-1] == 0x7d && pp[len(pp)-2] != 0x7d && pp[len(pp)-2] != 0x7e {
+					e2 := ref.Escape(pp[:len(pp)-1])
+					f = append(e2[:len(e2)-1], 0x7d, 0x7e)
+				}
+			}
+			fs = append(fs, f)
+		}
+		run("raw-7d-checksum dialect mixed with escaped frames", fs, nil, false)
 	})
 	n := c.N(4000, 300000)
 	core.ParallelFor(n, ncpu(), func(i int) {
